@@ -19,7 +19,8 @@ gen_spec(rng, size=None, profile="mixed", lists="all") -> Spec
                "lists" (rdf:List structures, proper and malformed)
       lists:   "all" | "proper" (only well-formed collections) | "none"
       size:    rough number of motifs (default rng-chosen 1..6); a motif adds 1..12 triples
-gen_literal(rng, kind=None) -> term   kind in LITERAL_KINDS (None = random kind)
+gen_literal(rng, kind=None) -> term   kind in LITERAL_KINDS (None = random kind; "xml" = rdf:XMLLiteral fragments)
+gen_xml_fragment(rng) -> str          a well-formed XML fragment (siblings re-declaring a namespace, nesting, attributes…)
 gen_iri(rng, role="node") -> term     role "node" | "pred" (predicates avoid IRIs Turtle cannot abbreviate only sometimes)
 gen_text(rng, maxlen=8) -> str        from the character pool (quotes, backslashes, newlines, \r, tabs, controls, non-BMP…)
 term(t) / unterm(x)                   JSON term <-> rdflib term
@@ -145,7 +146,21 @@ DATATYPES = [
     ("http://ex.org/q?x=1&y=2", ["v"], []),
     ("http://ex.org/dot/t.", ["v"], []),
 ]
-LITERAL_KINDS = ["plain", "lang", "typed_valid", "typed_invalid", "typed_text", "number", "falsy", "fixed"]
+LITERAL_KINDS = ["plain", "lang", "typed_valid", "typed_invalid", "typed_text", "number", "falsy", "fixed", "xml"]
+
+# well-formed XML fragments for rdf:XMLLiteral (RDF/XML writers may embed them raw with parseType="Literal"):
+XML_NS = ["http://x.example/", "http://www.w3.org/1999/xhtml", "http://ex.org/ns#"]
+XML_FIXED = [
+    '<a xmlns="http://x.example/">1</a><b xmlns="http://x.example/">2</b>',               # siblings, same default ns
+    '<p:a xmlns:p="http://x.example/">1</p:a> and <p:b xmlns:p="http://x.example/">2</p:b>',  # siblings, same prefix
+    '<d><a xmlns="http://x.example/">1</a><b xmlns="http://x.example/">2</b></d>',       # nested siblings
+    '<a xmlns:p="http://x.example/" p:k="v">t</a>',                                       # namespaced attribute
+    '<a>1</a><!-- c --><b>2</b>', '<?pi x?><a/>', '<a><![CDATA[x<y]]></a>',              # comment, PI, CDATA
+    'text <b>bold</b> tail', '<a><b><c/></b></a>', '<a k="1" j="2"/>', '<a>&lt;&amp;&gt;</a>', '<a> </a>', ' <a/> ',
+    '<p xmlns="http://www.w3.org/1999/xhtml">See <a href="#x">x</a></p>',
+    '<a xmlns="http://x.example/"><b xmlns="">u</b><c/></a>',                             # un-declaration inside
+    '<p:a xmlns:p="http://x.example/"><p:b/><q:c xmlns:q="http://x.example/"/></p:a>',
+]
 
 BIND_SETS = [
     [],
@@ -262,8 +277,37 @@ def gen_iri(rng, role="node"):
     return I(iri)
 
 
+def gen_xml_fragment(rng, depth=0):
+    """a well-formed XML fragment: sibling / nested elements, namespace declarations (default and prefixed, the same
+    namespace re-declared on siblings), attributes (plain and namespaced), mixed text, rarely comment / PI / CDATA"""
+    parts = []
+    ns = rng.choice(XML_NS)
+    style = rng.choice(["none", "default", "prefix", "default", "prefix"])  # one style for all siblings: re-declarations
+    for i in range(rng.choice([1, 2, 2, 3])):
+        name = rng.choice(["a", "b", "c", "em"])
+        decl, tag = "", name
+        if style == "default":
+            decl = f' xmlns="{ns}"'
+        elif style == "prefix":
+            tag = "p:" + name
+            decl = f' xmlns:p="{ns}"'
+        attr = rng.choice(["", "", ' k="1"', ' k="1" j="2"', ' p:k="v"' if style == "prefix" else ' x="&amp;"'])
+        if depth < 2 and rng.random() < 0.3:
+            inner = gen_xml_fragment(rng, depth + 1)
+        else:
+            inner = rng.choice(["", "1", "t&amp;u", " ", "x y"])
+        if rng.random() < 0.04:
+            inner += rng.choice(["<!-- c -->", "<?pi x?>", "<![CDATA[x<y]]>"])
+        parts.append(f"<{tag}{decl}{attr}>{inner}</{tag}>" if inner or rng.random() < 0.5 else f"<{tag}{decl}{attr}/>")
+        if rng.random() < 0.3:
+            parts.append(rng.choice([" and ", "text", " "]))
+    return "".join(parts)
+
+
 def gen_literal(rng, kind=None):
     kind = kind or rng.choice(LITERAL_KINDS)
+    if kind == "xml":
+        return L(rng.choice(XML_FIXED) if rng.random() < 0.4 else gen_xml_fragment(rng), RDF + "XMLLiteral")
     if kind == "plain":
         return L(gen_text(rng))
     if kind == "lang":
@@ -538,14 +582,44 @@ def _m_list(c, owner=None, kind=None):
         c.add(rng.choice([a, b]), c.pred(), h2)
 
 
-MOTIFS = {"ground": _m_ground, "literals": _m_literals, "tree": _m_tree, "dag": _m_dag, "cycle": _m_cycle,
+def _m_anon_multiline(c):
+    """several anonymous `[ … ]` nodes (members of a list, or objects of one property) whose contents hold multi-line
+    literals with varied last-line lengths — N3 derives the identity of a `[` from its line/column position"""
+    rng = c.rng
+    n = rng.randint(2, 7)
+    k0 = rng.randint(0, 30)
+    members = []
+    for i in range(n):
+        b = c.bnode()
+        tail = "x" * ((k0 + i * rng.choice([1, 1, 2, 3])) % 40)
+        text = rng.choice(["first line\n", "a\nb\n", "\n", "l1\r\nl2\n", "q\"\n"]) + tail
+        if i % 2 == 0 or rng.random() < 0.5:
+            c.add(b, c.pred(), L(text, None, rng.choice([None, None, "en"])))
+        if i % 2 == 1 or rng.random() < 0.3:
+            c.add(b, c.pred(), rng.choice([L("1", XSD + "integer"), c.iri()]))
+        members.append(b)
+    owner = rng.choice([c.iri(), c.iri(), c.bnode()])
+    if rng.random() < 0.6:
+        cells = [c.bnode() for _ in members]
+        for i, (cell, m) in enumerate(zip(cells, members)):
+            c.add(cell, I(FIRST), m)
+            c.add(cell, I(REST), cells[i + 1] if i + 1 < len(cells) else I(NIL))
+        c.add(owner, c.pred(), cells[0])
+    else:
+        p = c.pred()
+        for m in members:
+            c.add(owner, p, m)
+
+
+MOTIFS = {"anon_multiline": _m_anon_multiline, "ground": _m_ground, "literals": _m_literals, "tree": _m_tree, "dag": _m_dag, "cycle": _m_cycle,
           "unref": _m_unref, "types": _m_bnode_types, "list": _m_list}
 PROFILES = {
-    "mixed": [("ground", 3), ("literals", 3), ("tree", 3), ("dag", 2), ("cycle", 2), ("unref", 2), ("types", 1), ("list", 5)],
+    "mixed": [("ground", 3), ("literals", 3), ("tree", 3), ("dag", 2), ("cycle", 2), ("unref", 2), ("types", 1), ("list", 5),
+              ("anon_multiline", 2)],
     "ground": [("ground", 3), ("literals", 3)],
     "literals": [("literals", 6), ("ground", 1), ("list", 1)],
-    "bnodes": [("tree", 3), ("dag", 2), ("cycle", 3), ("unref", 2), ("types", 1), ("ground", 1)],
-    "lists": [("list", 6), ("tree", 1), ("cycle", 1), ("ground", 1)],
+    "bnodes": [("tree", 3), ("dag", 2), ("cycle", 3), ("unref", 2), ("types", 1), ("ground", 1), ("anon_multiline", 3)],
+    "lists": [("list", 6), ("tree", 1), ("cycle", 1), ("ground", 1), ("anon_multiline", 2)],
 }
 
 
